@@ -859,9 +859,19 @@ def r4_retry(program, rep):
                     ("comp", CHIP, 1), P_), ()),), ())
         WAIT = ("attr", ("attr", ("global", "consts"), "AppState"), "wait")
         it1, e1, conds = cores[0]
-        oka = e1 == P_ and [(plain(c), p_) for c, p_ in conds] in (
-            [(mk_cmp("Is", state, WAIT), False)],
-            [(mk_cmp("Eq", state, WAIT), False)])
+        cl = [(plain(c), p_) for c, p_ in conds]
+        wanted = [x for x in cl if x in ((mk_cmp("Is", state, WAIT), False),
+                                         (mk_cmp("Eq", state, WAIT), False))]
+        extra = [x for x in cl if x not in wanted]
+        # (an assertion about the type of what was read adds a condition
+        # that is always true)
+        typed = [x for x in extra if x[1] and x[0][0] in ("call", "callv")
+                 and x[0][1] == ("global", "isinstance")]
+        if wanted and len(typed) != len(extra):
+            raise AnalysisError("load_application: a core is kept as "
+                                "unloaded under further conditions that "
+                                "this rule does not read")
+        oka = e1 == P_ and len(wanted) == 1 and len(typed) == len(extra)
         rep.check(oka, "C09-R4", inst, "a core stays 'unloaded' iff its own "
                   "state (read at its x, y, p) is not 'wait'",
                   construct="per-core test", node=chip_l or w)
